@@ -12,7 +12,7 @@ from .prng import Rng, mix
 from .seams import load_pytenet
 from . import kr_oracle as ko
 
-CB_KINDS = ['fresh', 'CBALIAS', 'CBBUF', 'CBRO']
+CB_KINDS = ['fresh', 'CBALIAS', 'CBBUF', 'CBRO', 'CBMEMO']
 
 
 def gen_session(prop: str, tier: str, seed: int) -> dict:
@@ -27,7 +27,7 @@ def gen_session(prop: str, tier: str, seed: int) -> dict:
     else:
         style = rng.wpick([('random', 4), ('triangular', 1), ('nilpotent', 1), ('blockdiag', 2), ('real', 1.5), ('identity', 0.4), ('normal', 1)])
     faultfree = rng.chance(0.25)
-    enabled = [] if faultfree else [k for k in ('EIGSIGN', 'ULP') if rng.chance(0.7)] + [k for k in ('CBALIAS', 'CBBUF', 'CBRO') if rng.chance(0.7)]
+    enabled = [] if faultfree else [k for k in ('EIGSIGN', 'ULP') if rng.chance(0.7)] + [k for k in ('CBALIAS', 'CBBUF', 'CBRO', 'CBMEMO') if rng.chance(0.7)]
     cfg = {'world': 'kr', 'profile': prop, 'tier': tier, 'n': n, 'herm': herm, 'style': style, 'msub': rng.sub(),
            'norm': rng.pick([0.5, 1.0, 1.0, 2.0, 3.0, 4.0]), 'enabled': enabled, 'faultfree': faultfree,
            'blocks': rng.randrange(1, max(2, n)) if n > 1 else 1}
@@ -55,7 +55,7 @@ def gen_session(prop: str, tier: str, seed: int) -> dict:
             dt = [mag * math.cos(ph), mag * math.sin(ph)]
         cb = 'fresh'
         if not faultfree and rng.chance(0.6):
-            cands = [k for k in ('CBALIAS', 'CBBUF', 'CBRO') if k in enabled]
+            cands = [k for k in ('CBALIAS', 'CBBUF', 'CBRO', 'CBMEMO') if k in enabled]
             if cands:
                 cb = rng.pick(cands)
         op = {'op': kind, 'm': m, 'dt': dt, 'cb': cb, 'vsub': rng.sub(),
@@ -137,6 +137,8 @@ class Callback:
         self.calls = 0
         self.aliased = 0
         self.buf = np.zeros(A.shape[0], dtype=complex)
+        self.store = []
+        self.store_bytes = []
 
     def __call__(self, x):
         self.calls += 1
@@ -148,6 +150,11 @@ class Callback:
         if self.kind == 'CBALIAS' and np.array_equal(y, x):
             self.aliased += 1
             return x
+        if self.kind == 'CBMEMO':
+            # a memoising callback: hands out arrays it keeps (and owns)
+            self.store.append(y)
+            self.store_bytes.append(y.tobytes())
+            return y
         if self.kind == 'CBRO':
             y.flags.writeable = False
         return y
@@ -216,6 +223,11 @@ class KRSession(SessionBase):
             exc = e
         finally:
             self.env.end_op()
+        cb_ = getattr(self, 'cur_cb', None)
+        if cb_ is not None and cb_.store:
+            same_ = all(a.tobytes() == b for a, b in zip(cb_.store, cb_.store_bytes))
+            self.check(same_, ['C19', 'C14' if op['op'] in ('lanczos', 'arnoldi') else 'C15'], 'callback_owned_array_modified',
+                       'an array kept (and owned) by the user callback was modified by the Krylov routine')
         # history: what an earlier call returned stays what it was (results kept by the caller)
         prev = getattr(self, '_kept', None)
         if prev is not None:
@@ -255,6 +267,7 @@ class KRSession(SessionBase):
         self.ctx = {'callback': cbk}
         if cbk != 'fresh':
             self.env.fire(cbk)
+        self.cur_cb = cb
         cls, K, normA, Q = ko.classify(self.A, v, m)
         self.probe('krylov_' + cls)
         if cls == 'exhausted':
